@@ -16,6 +16,9 @@ StrYears == {2020, 2021, 1972, 0, -1, 9999, 10000, -271821, 275760}
 StrRoutes == {[k |-> "str", y |-> y, m |-> m, d |-> d, t |-> t] :
                 y \in StrYears, m \in {1, 2, 3, 4, 5, 9, 10, 12}, d \in {0, 1, 17, 28, 29, 30, 31}, t \in {"", "T10:00", "T23:59:59.999999999"}}
 YmStrRoutes == {r \in StrRoutes : r.d # 0 \/ r.t = ""}
+\* full dates with the ISO calendar annotation in any letter case (calendar identifiers are case-insensitive): the day is dropped all the same
+YmStrAnnRoutes == {[k |-> "str", y |-> y, m |-> m, d |-> d, t |-> t] : y \in {2020, 2024}, m \in {2, 3}, d \in {1, 15, 29},
+                                                                       t \in {"[u-ca=iso8601]", "[u-ca=ISO8601]", "T10:00[u-ca=Iso8601]", "[!u-ca=ISO8601]"}}
 YmDateRoutes == {[k |-> "date", d |-> dt] : dt \in DaysOfMonth(2020, 2, 1, 29) \cup DaysOfMonth(2021, 2, 1, 28) \cup DaysOfMonth(2020, 1, 1, 31)
                                                   \cup DaysOfMonth(2021, 12, 1, 31) \cup DaysOfMonth(-271821, 4, 19, 30) \cup DaysOfMonth(275760, 9, 1, 13)
                                                   \cup DaysOfMonth(0, 2, 28, 29) \cup DaysOfMonth(-1, 12, 30, 31)}
@@ -28,7 +31,7 @@ NewRef == {[k |-> "new", y |-> y, m |-> m, rd |-> rd, ovf |-> ovf] :
 YmWithRoutes == {[k |-> "with", recv |-> rv, p |-> p, ovf |-> ovf] :
                    rv \in {YMV(2020, 5, 1), YMV(2020, 1, 31), YMV(275760, 9, 13)},
                    p \in {[month |-> 7], [year |-> 2021], [monthCode |-> "M02"], [month |-> 2, monthCode |-> "M02"], [year |-> 2020, month |-> 5]}, ovf \in Ovfs}
-QYmRoutes == YmStrRoutes \cup YmDateRoutes \cup YmPartialRoutes \cup NewNoRef \cup NewRef \cup YmWithRoutes \cup {[k |-> "default"]}
+QYmRoutes == YmStrRoutes \cup YmStrAnnRoutes \cup YmDateRoutes \cup YmPartialRoutes \cup NewNoRef \cup NewRef \cup YmWithRoutes \cup {[k |-> "default"]}
 
 \* the routes to one year-month (dt = a date in it), compared pairwise: all must give the same value except the explicit references
 RoutesTo(dt, dt2) ==
